@@ -146,6 +146,17 @@ class TransformProfile(HeapProfile):
                 spec, _ = draw_region_spec(rng, geo, ndim)
                 return dict(spec, op="Region.new", out=out)
             if what == "M" or not meshes:
+                if cfg.get("bigmesh") and not st.extra.get("bigmesh_done") and ndim >= 2:
+                    # one mesh above 2**16 cells whose cell count is no multiple of it (block-wise code paths, if any)
+                    st.extra["bigmesh_done"] = True
+                    st.stats.probe("big_mesh")
+                    nb = {2: [300, 250], 3: [50, 40, 35], 4: [9, 8, 31, 33]}[ndim]
+                    spec = draw_mesh_spec(rng, geo, ndim, 10**6, 0)
+                    pmin = [min(a, b) for a, b in zip(spec["p1"], spec["p2"])]
+                    spec.update(p1=pmin, p2=[a + k * geo.u for a, k in zip(pmin, nb)], n=nb, subs=[], bc="")
+                    spec.pop("intcorners", None)
+                    spec.pop("intsubs", None)
+                    return dict(spec, op="Mesh.new", out=out)
                 if meshes and rng.random() < 0.3:
                     st.stats.probe("twin_mesh")
                     return dict(draw_twin_spec(rng, st.h[rng.choice(meshes)].box.v), op="Mesh.new", out=out)
@@ -262,4 +273,6 @@ class RotateProfile(TransformProfile):
         cfg["methods"] = ["rotate90"]
         cfg["max_cells"] = rng.choice([12, 60, 200])
         cfg["kinds"] = rng.choice(["RMF", "F", "F", "MF", "R", "M"])
+        if rng.random() < 0.02 and "F" in cfg["kinds"] and cfg["ndim"] >= 2:
+            cfg.update(bigmesh=True, steps=min(cfg["steps"], 8), pool=4, p_reject=0.0)
         return cfg
